@@ -268,7 +268,7 @@ def _serial_symbolic(sc):
     the counter-examples of the two witness invariants are returned as operand pairs for the real code."""
     from concurrent.futures import ThreadPoolExecutor
     jobs = [("CInit16", "AllLemmas"), ("CInit32", "AllLemmas"), ("CInit32", "W_NumericOrder"),
-            ("CInit32", "W_TotalEverywhere"), ("CInit16", "W_NumericOrder")]
+            ("CInit32", "W_TotalEverywhere"), ("CInit16", "W_NumericOrder"), ("CInit32", "W_NumericSortKey")]
     with ThreadPoolExecutor(max_workers=len(jobs)) as ex:
         res = list(ex.map(lambda j: _apalache(sc, *j), jobs))
     if res[0][0] is None:
@@ -282,8 +282,9 @@ def _serial_symbolic(sc):
                 raise T.MachineryError("SerialApa.tla: witness %s not refuted for %s" % (inv, cinit))
             pairs.append((32 if cinit == "CInit32" else 16, cex["a"], cex["b"]))
     return {"serial_symbolic": "Apalache: AllLemmas (formula = reference order, antisymmetry, consistency with addition, "
-                               "totality and transitivity below half, origin freedom) hold for ALL operand triples at M = 2^16 "
-                               "and M = 2^32; witnesses W_NumericOrder / W_TotalEverywhere refuted",
+                               "totality, transitivity and monotonicity below half, origin freedom, successor/predecessor inverse, "
+                               "distance sort key = serial order) hold for ALL operand triples at M = 2^16 "
+                               "and M = 2^32; witnesses W_NumericOrder / W_TotalEverywhere / W_NumericSortKey refuted",
             "serial_symbolic_counterexample_pairs": [list(p) for p in pairs]}, pairs
 
 
